@@ -84,6 +84,10 @@ type loopCtx struct {
 	header *ssa.BasicBlock
 	body   map[*ssa.BasicBlock]bool
 	id     int
+	// counted loops: the loop variable tested in the header, the constant added to it in the test, and the loop-invariant bound
+	ctrVar   *Val
+	ctrOff   int64
+	ctrBound *Val
 }
 
 type frame struct {
@@ -265,6 +269,15 @@ func (e *Engine) load(st *state, addr *Val, t types.Type) *Val {
 	if addr.Op == "field" {
 		if me, ok := st.mem[addr.Args[0].Key()]; ok {
 			return fieldOfVal(me.V, addr.ID, addr.Name, t)
+		}
+	}
+	if addr.Op == "index" {
+		base := addr.Args[0]
+		for base.Op == "slice" && base.Args[1] == nil {
+			base = base.Args[0]
+		}
+		if c, ok := st.content[base.Key()]; ok {
+			return &Val{Op: "elem", Args: []*Val{c, addr.Args[1]}, Type: t}
 		}
 	}
 	root := addrRoot(addr)
@@ -708,6 +721,29 @@ func (e *Engine) execLoop(st *state, fr *frame, h, prev *ssa.BasicBlock, body ma
 			aborts = append(aborts, o)
 		}
 	}
+	// constant step of each header phi (same on every back edge): recorded on the loop variable for monotonicity reasoning
+	for _, pi := range phis {
+		var step *int64
+		okStep := len(iters) > 0
+		for _, it := range iters {
+			n := it.Next[pi.lv.Name]
+			if n == nil {
+				okStep = false
+				break
+			}
+			d := affOf(n).Add(affOf(pi.lv), -1)
+			k, isC := d.IsConst()
+			if !isC || (step != nil && *step != k) {
+				okStep = false
+				break
+			}
+			kk := k
+			step = &kk
+		}
+		if okStep && step != nil {
+			pi.lv.Aux = *step
+		}
+	}
 	// trip count
 	count, bounded := e.tripCount(h, ifr, lc, iters)
 	rep := func(partial bool) *Event {
@@ -716,7 +752,59 @@ func (e *Engine) execLoop(st *state, fr *frame, h, prev *ssa.BasicBlock, body ma
 	// loop-out values of header phis
 	loopOut := map[*ssa.Phi]*Val{}
 	for _, pi := range phis {
-		loopOut[pi.phi] = e.loopOutVal(pi.phi, pi.init, pi.lv, iters, count, lid)
+		loopOut[pi.phi] = e.loopOutVal(pi.phi, pi.init, pi.lv, iters, count, lid, lc)
+	}
+	// exits of an effect-free loop that reach the same block are one outcome: the header phis take their
+	// loop-exit value, whichever test ended the loop
+	if len(exits) > 1 {
+		same := true
+		for _, o := range exits {
+			if o.exitTo != exits[0].exitTo {
+				same = false
+			}
+			for _, ev := range o.st.events {
+				if ev.Kind != EvPanicSite { // panic sites of the last, incomplete iteration recur in the iteration arm
+					same = false
+				}
+			}
+		}
+		if same {
+			tgt := exits[0].exitTo
+			for _, in := range tgt.Instrs {
+				phi, isPhi := in.(*ssa.Phi)
+				if !isPhi {
+					break
+				}
+				var first ssa.Value
+				for _, o := range exits {
+					for i, pr := range tgt.Preds {
+						if pr == o.exitFrom {
+							if first == nil {
+								first = phi.Edges[i]
+							} else if first != phi.Edges[i] {
+								same = false
+							}
+						}
+					}
+				}
+			}
+		}
+		for _, it := range iters {
+			for _, ev := range it.Events {
+				if ev.Kind != EvPanicSite {
+					same = false
+				}
+			}
+		}
+		if same {
+			keep := exits[0]
+			for _, o := range exits {
+				if o.exitFrom == h {
+					keep = o
+				}
+			}
+			exits = []*outcome{keep}
+		}
 	}
 	var res []*outcome
 	for _, o := range exits {
@@ -796,13 +884,14 @@ func (e *Engine) tripCount(h *ssa.BasicBlock, ifr *frame, lc *loopCtx, iters []*
 		return unknown, ""
 	}
 	bo, ok := iff.Cond.(*ssa.BinOp)
-	if !ok || bo.Op != token.LSS || !lc.body[h.Succs[0]] || lc.body[h.Succs[1]] {
+	if !ok || (bo.Op != token.LSS && bo.Op != token.GTR) || !lc.body[h.Succs[0]] || lc.body[h.Succs[1]] {
 		return unknown, ""
 	}
 	c := e.val(ifr, bo)
-	if c.Op != "binop" || c.Name != "<" {
+	if c.Op != "binop" || (c.Name != "<" && c.Name != ">") {
 		return unknown, ""
 	}
+	down := c.Name == ">"
 	tested, bound := c.Args[0], c.Args[1]
 	if bound.Contains(func(v *Val) bool { return v.Op == "loopvar" && v.ID == lc.id || v.Op == "unknown" }) {
 		return unknown, ""
@@ -822,9 +911,13 @@ func (e *Engine) tripCount(h *ssa.BasicBlock, ifr *frame, lc *loopCtx, iters []*
 	if lv.Op != "loopvar" || lv.ID != lc.id {
 		return unknown, ""
 	}
-	// every back edge: next = lv + 1
+	// every back edge: next = lv + 1 (or lv - 1 for a descending loop)
 	if len(iters) == 0 {
 		return unknown, ""
+	}
+	want := int64(1)
+	if down {
+		want = -1
 	}
 	for _, it := range iters {
 		n := it.Next[lv.Name]
@@ -832,9 +925,14 @@ func (e *Engine) tripCount(h *ssa.BasicBlock, ifr *frame, lc *loopCtx, iters []*
 			return unknown, ""
 		}
 		d := affOf(n).Add(affOf(lv), -1)
-		if k, ok := d.IsConst(); !ok || k != 1 {
+		if k, ok := d.IsConst(); !ok || k != want {
 			return unknown, ""
 		}
+	}
+	lc.ctrVar, lc.ctrOff, lc.ctrBound = lv, a.C, bound
+	if down {
+		first := affConst(a.C).Add(affOf(lv.Args[0]), 1)
+		return affToVal(first.Add(affOf(bound), -1)), "counted-down"
 	}
 	// first tested value = init + k ; count = bound - first  (clamped at 0)
 	first := affConst(a.C).Add(affOf(lv.Args[0]), 1)
@@ -882,7 +980,7 @@ func affToVal(a *Affine) *Val {
 }
 
 // loopOutVal describes the value of a header phi after the loop.
-func (e *Engine) loopOutVal(phi *ssa.Phi, init, lv *Val, iters []*Arm, count *Val, lid int) *Val {
+func (e *Engine) loopOutVal(phi *ssa.Phi, init, lv *Val, iters []*Arm, count *Val, lid int, lc *loopCtx) *Val {
 	// append accumulation: next = append(lv, elems)
 	if len(iters) > 0 {
 		var elem *Val
@@ -914,7 +1012,12 @@ func (e *Engine) loopOutVal(phi *ssa.Phi, init, lv *Val, iters []*Arm, count *Va
 			return &Val{Op: "collect", ID: lid, Args: []*Val{init, elem, count}, Type: phi.Type()}
 		}
 	}
-	return &Val{Op: "loopout", ID: lid, Name: lv.Name, Args: []*Val{init}, Type: phi.Type()}
+	out := &Val{Op: "loopout", ID: lid, Name: lv.Name, Args: []*Val{init}, Type: phi.Type(), Aux: lv.Aux}
+	if lc.ctrVar != nil && lc.ctrVar.Key() == lv.Key() && lc.ctrOff == 0 && lc.ctrBound != nil {
+		// the counter of a counted loop: on exit it lies between its initial value and the bound
+		out.Args = append(out.Args, lc.ctrBound)
+	}
+	return out
 }
 
 type deferOut struct {
